@@ -9,39 +9,59 @@ LEAN_MODULES = ["AwsVerif.Props.C16"]
 COMPONENT = "math"
 DRIVER_EXE = "awsmath"
 HARNESS = None   # built in regen (needs the generated header)
-TRUSTED = ["translator gen/cfun.py + gen/math_gen.py (clang-14 JSON AST -> Lean; self-checked against the compiled C on every run)",
+TRUSTED = ["translator gen/cfun.py + gen/math_gen.py + gen/math_varargs.py (clang-14 JSON AST -> Lean; self-checked against the compiled C on every run)",
+           "variadic arguments modelled as the list of arguments passed (va_arg = head of the list)",
            "meaning given to __builtin_{add,mul}_overflow and __builtin_c[lt]z* in Model/CSem.lean",
            "hand model Model/MathAsm.lean of the x86-64 inline assembly (tied by the correspondence run)",
            "signed shift/overflow UB given two's-complement meaning"]
 ASSUMPTIONS = ["x86-64 SysV: size_t = uint64_t; default build configuration resolves un-prefixed calls to the gcc_overflow/gcc_builtin variants"]
 RULE = ("every (variant, function) of math*.inl/clock.inl on the boundary operand product {0,1,2^k-1,2^k,2^k+1,MAX-1,MAX,MAX/b,MAX/b+1} "
-        "plus PRNG operands; non-trivial = every case (each is a distinct operand tuple); distinct by op text")
+        "plus PRNG operands; source/math.c aws_add_size_checked_varargs with num in {0,1,2,3,5,8}, 0-2 surplus arguments, exact fit and "
+        "first overflow at every prefix position; non-trivial = every case (each is a distinct operand tuple); distinct by op text")
 
 _state = {}
 
 
 def regen(ctx):
     repo, cfg = cbuild.REPO, cbuild.config_include()
+    va_err = None
     try:
-        lean_math, lean_disp, meta = math_gen.generate(repo, cfg)
+        try:
+            lean_math, lean_disp, meta = math_gen.generate(repo, cfg)
+        except cfun.GenError as e:
+            # if only source/math.c is outside its subset, keep the harness runnable (the oracle can still find a
+            # concrete failure); the Lean files are left as they were, the model is not consulted, and the translator
+            # error is reported
+            va_err = str(e)
+            lean_math, lean_disp, meta = math_gen.generate(repo, cfg, varargs=False)
         c_text, entries = math_gen.c_dispatch(repo, meta)
     except cfun.GenError as e:
-        raise GenError(str(e))
-    write_if_changed(os.path.join(LEAN, "AwsVerif", "Gen", "Math.lean"), lean_math)
-    write_if_changed(os.path.join(LEAN, "AwsVerif", "Gen", "MathDispatch.lean"), lean_disp)
+        raise GenError(va_err or str(e))
+    if va_err is None:
+        write_if_changed(os.path.join(LEAN, "AwsVerif", "Gen", "Math.lean"), lean_math)
+        write_if_changed(os.path.join(LEAN, "AwsVerif", "Gen", "MathDispatch.lean"), lean_disp)
     h = hashlib.sha256(c_text.encode()).hexdigest()[:16]
     d = os.path.join(cbuild.CACHE, "gen", "mathv-" + h)
     os.makedirs(d, exist_ok=True)
     write_if_changed(os.path.join(d, "mathv_gen.h"), c_text)
     _state["entries"] = entries
-    global HARNESS
+    global HARNESS, COMPONENT
     HARNESS = dict(name="mathv", flavour="plain", extra_cflags=["-I" + d, "-DGEN_HASH_" + h])
+    COMPONENT = "math"
+    if va_err is not None:
+        # no model of the current source exists: run the implementation against the oracle only (a stale model from an
+        # earlier run must not be compared with it)
+        COMPONENT = None
+        raise GenError(va_err)
 
 
 def _entries():
     if "entries" not in _state:
-        lean_math, lean_disp, meta = math_gen.generate(cbuild.REPO, cbuild.config_include())
-        _, entries = math_gen.c_dispatch(cbuild.REPO, meta)
+        try:
+            lean_math, lean_disp, meta = math_gen.generate(cbuild.REPO, cbuild.config_include(), varargs=False)
+            _, entries = math_gen.c_dispatch(cbuild.REPO, meta)
+        except cfun.GenError:
+            entries = []     # the headers no longer translate (reported by the Lean stage); only `addv` cases remain
         _state["entries"] = entries
     return _state["entries"]
 
@@ -141,7 +161,49 @@ def gen_cases(rng, tier):
         # one case per (variant, function) chunk of <= 400 ops
         for i in range(0, len(ops), 400):
             cases.append(Case(ops[i:i + 400], {"variant": v, "fn": name}))
+    ops = addv_ops(rng, tier)
+    for i in range(0, len(ops), 400):
+        cases.append(Case(ops[i:i + 400], {"variant": "mc", "fn": "aws_add_size_checked_varargs"}))
     return cases
+
+
+def addv_ops(rng, tier):
+    """source/math.c: `addv <num> <a1> ...` = aws_add_size_checked_varargs(num, &r, a1, ...); every listed argument is
+    passed, only the first num count (surplus arguments are distinctive so that consuming one too many, or one too few,
+    changes the answer); exact fit / first overflow placed at every prefix position"""
+    M = (1 << 64) - 1
+    surplus_pool = [12345, 1, M, 16, 1 << 63, M - 1]
+    small = [0, 1, 2, 3, 16, 255, 12345, 1 << 32, (1 << 32) + 1]
+    reps = 4 if tier == "quick" else 60
+    ops = []
+
+    def emit(num, a, ns):
+        sur = [rng.choice(surplus_pool) for _ in range(ns)]
+        ops.append("addv " + " ".join(str(x) for x in [num] + list(a) + sur))
+
+    def term():
+        return rng.choice(small) if rng.random() < 0.3 else rng.getrandbits(rng.randint(1, 60))
+    for num in (0, 1, 2, 3, 5, 8):
+        for ns in (0, 1, 2):
+            for _ in range(reps):
+                emit(num, [term() for _ in range(num)], ns)
+            if num == 0:
+                continue
+            emit(num, [rng.getrandbits(64)] + [0] * (num - 1), ns)
+            for k in range(num):
+                base = [rng.getrandbits(rng.randint(1, 62)) for _ in range(num)]
+                pre = sum(base[:k])            # < 8 * 2^62 <= MAX
+                # the running sum reaches exactly MAX at position k and stays there: fits
+                emit(num, base[:k] + [M - pre] + [0] * (num - k - 1), ns)
+                # ... and the next operand (if any) tips it over: first overflow at position k + 1
+                if k + 1 < num:
+                    emit(num, base[:k] + [M - pre, rng.choice([1, 2, M])] + base[k + 2:], ns)
+                # first overflow exactly at position k (k >= 1), by one
+                if k >= 1 and pre > 0:
+                    emit(num, base[:k] + [M - pre + 1] + base[k + 1:], ns)
+                    # the overflow would be cancelled by wrap-around of later operands: still an error
+                    emit(num, base[:k] + [M - pre + 1] + [M] * (num - k - 1), ns)
+    return ops
 
 
 def oracle(case, lines):
@@ -149,6 +211,15 @@ def oracle(case, lines):
     errs = []
     for op, line in zip(case.ops, lines):
         t = op.split()
+        if t[0] == "addv":
+            num, a = int(t[1]), [int(x) for x in t[2:]]
+            tot = sum(a[:num])
+            exp = f"ok {tot}" if tot < (1 << 64) else "err 5"
+            if line != "P " + exp:
+                errs.append(f"{op}: implementation says `{line}`, mathematics (sum of the first {num} operands) says `P {exp}`")
+                if len(errs) > 3:
+                    break
+            continue
         m = entries.get((t[1], t[2]))
         if m is None:
             continue
@@ -179,7 +250,8 @@ def distribution(cases, c_out):
 MANIFEST = dict(
     category="proof",
     design_ref="5.16",
-    text=("Every function of math.inl, math.fallback.inl, math.gcc_overflow.inl, math.gcc_builtin.inl and clock.inl is "
+    text=("Every function of math.inl, math.fallback.inl, math.gcc_overflow.inl, math.gcc_builtin.inl, clock.inl and source/math.c "
+          "(the variadic checked sum: exact sum of the first num operands or overflow, 0 for num = 0) is "
           "re-translated from /repo's headers into Lean on every run (clang AST -> shallow embedding over Nat with explicit "
           "wrap-around) and the theorems of Props/C16.lean are re-proved about what the code says now: checked add/mul/sub exact "
           "or overflow error, saturating forms, power-of-two test/rounding, clz/ctz, min/max, variant agreement, time-unit conversion "
